@@ -229,3 +229,36 @@ pub fn with_empty_member(file: &[u8], sel: u16) -> Option<Vec<u8>> {
     v.extend_from_slice(&file[at..]);
     Some(v)
 }
+
+/// The same payload re-cut into blocks whose boundaries fall at arbitrary byte offsets (sizes from a
+/// seeded generator: many tiny blocks of 1–7 bytes, some of a few hundred, some large): a valid BGZF
+/// file that puts block boundaries inside records, length prefixes and lines — where noodles' own
+/// writers, flushed between records, never put them. `None` when the input does not walk as BGZF.
+pub fn reframed(file: &[u8], seed: u32) -> Option<Vec<u8>> {
+    let members = walk(file).ok()?;
+    let payload = concat(&members);
+    let mut r = crate::r#gen::payload::XorShift::new(seed as u64 + 0x5eed);
+    let mut blocks: Vec<Vec<u8>> = Vec::new();
+    let mut off = 0usize;
+    while off < payload.len() {
+        let x = r.next();
+        let n = match x % 10 {
+            0..=4 => 1 + (x >> 8) as usize % 7,
+            5..=7 => 8 + (x >> 8) as usize % 400,
+            8 => 400 + (x >> 8) as usize % 8000,
+            _ => 20_000 + (x >> 8) as usize % 40_000,
+        };
+        let end = (off + n).min(payload.len());
+        blocks.push(payload[off..end].to_vec());
+        off = end;
+        // keep the file small: after 400 blocks the rest goes into large ones
+        if blocks.len() > 400 {
+            while off < payload.len() {
+                let end = (off + 60_000).min(payload.len());
+                blocks.push(payload[off..end].to_vec());
+                off = end;
+            }
+        }
+    }
+    Some(build_file(&blocks, 1 + (seed % 6) as u8, true))
+}
